@@ -41,6 +41,10 @@ var (
 	one, _ = hex.DecodeString("01")
 
 	two, _ = hex.DecodeString("02")
+
+	// order of the prime-order subgroup, l = 2^252 + 27742317777372353535851937790883648493, little endian
+	groupOrder = [32]byte{0xed, 0xd3, 0xf5, 0x5c, 0x1a, 0x63, 0x12, 0x58, 0xd6, 0x9c, 0xf7, 0xa2, 0xde, 0xf9, 0xde, 0x14,
+		0, 0, 0, 0, 0, 0, 0, 0, 0, 0, 0, 0, 0, 0, 0, 0x10}
 )
 
 // VRFProve is the output prove of VRF_Ed25519.
@@ -123,6 +127,13 @@ func ECVRFVerify(pk PublicKey, pi VRFProve, m []byte) (bool, error) {
 	gamma, cScalar, sScalar, err := decodeProof(pi)
 	if err != nil {
 		return false, err
+	}
+	// Gamma must lie in the prime-order subgroup: Gamma + T (T of small order) verifies as well for
+	// a suitable nonce, but encodes to a different lottery value (VRFProof2Hash is the encoding of Gamma)
+	var lGamma [32]byte
+	edwards25519.GeScalarMult(gamma, &groupOrder).ToBytes(&lGamma)
+	if lGamma != [32]byte{1} {
+		return false, ErrDecodeError
 	}
 	sScalar32 := new([32]byte)
 	edwards25519.ScReduce(sScalar32, sScalar)
